@@ -49,6 +49,9 @@ def gen_dir(rng, feats):
                 lines[i] = m3.group(1) + rng.choice("0AZaz9") + m3.group(2)
                 feats.add("three_char_zid")
         out[rel] = "\n".join(lines)
+    if rng.random() < 0.5:
+        out = G.add_exotic_chars(rng, out)
+        feats.add("exotic_line_chars")
     return out
 
 
